@@ -65,7 +65,18 @@ func run(cfg *Config, src string) *luagen.Outcome { return runWith(cfg, src, cfg
 
 func runWith(cfg *Config, src string, ro *luagen.RunOptions) *luagen.Outcome {
 	if cfg.Isolate {
-		return luagen.RunIsolated(src, 20*time.Second, ro)
+		out := luagen.RunIsolated(src, 20*time.Second, ro)
+		if strings.Contains(out.GoFail, "within the time limit") {
+			// on a loaded machine starting the child, or milliseconds of Lua, can take many seconds:
+			// once more, patiently (a program that really hangs still fails, later)
+			var ro2 luagen.RunOptions
+			if ro != nil {
+				ro2 = *ro
+			}
+			ro2.Timeout = 60 * time.Second
+			out = luagen.RunIsolated(src, 120*time.Second, &ro2)
+		}
+		return out
 	}
 	return luagen.Run(src, ro)
 }
